@@ -8,6 +8,7 @@ sys.path.insert(0, os.path.join(ROOT, 'extract'))
 sys.path.insert(0, os.path.join(ROOT, 'contracts'))
 CACHE = os.environ.get('VERIF_CACHE') or os.path.join(ROOT, '.cache')
 NPROC = int(os.environ.get('VERIF_JOBS', os.cpu_count() or 8))
+BIGMEM_JOBS = int(os.environ.get('VERIF_BIGMEM_JOBS', '2'))
 
 sys.path.insert(0, os.path.join(ROOT, 'models'))
 import cxx2c, tu, families, gen_x86
@@ -282,14 +283,16 @@ def discharge(ob_text, cname, replace, workdir, flags, timeout_fast, timeout_slo
     if 'mul' not in flags and 'div' not in flags:
         attempts.append(('kissat', ['--external-sat-solver', 'kissat'], timeout_slow))
     for name, extra, to in attempts:
-        rc, out, err, dt = _run(base + extra, workdir, to, env, mem_gb=12)
+        rc, out, err, dt = _run(base + extra, workdir, to, env, mem_gb=(24 if unwind else 12))
         res['solver_s'] += dt
         if rc is None:
             res['reason'] = 'timeout (%s, %ds)' % (name, to)
             continue
         pj = parse_cbmc_json(out)
-        if pj is None or pj['status'] is None:
-            res['reason'] = 'cbmc error (%s): %s' % (name, (err or out)[-1500:])
+        if pj is None or pj['status'] not in ('success', 'failure'):
+            # includes cProverStatus "error" (solver out of memory, conversion errors): never a verdict
+            msg = '; '.join(m for m in (pj or {}).get('messages', []) if m)[-600:] if pj else ''
+            res['reason'] = 'cbmc error (%s): %s' % (name, msg or (err or out)[-1500:])
             # conversion / parse errors do not improve with another solver
             break
         res['backend'] = name
@@ -376,12 +379,18 @@ def run_obligations(obs, scratch, tier, progress=True):
     bykey = {ob.key: ob for ob in obs}
     done = 0
     t0 = time.time()
-    with ProcessPoolExecutor(max_workers=NPROC) as ex:
-        futs = [ex.submit(_worker, j) for j in jobs]
-        for f in as_completed(futs):
-            key, r = f.result()
-            bykey[key].result = r
-            done += 1
-            if progress and (done % 50 == 0 or done == len(jobs)):
-                print('  [%d/%d obligations, %.0fs]' % (done, len(jobs), time.time() - t0), file=sys.stderr, flush=True)
+    # obligations with fully unwound loops need 10-20 GB each: they run after the others, at most BIGMEM_JOBS at a time
+    big = [j for j in jobs if j[9]]
+    small = [j for j in jobs if not j[9]]
+    for batch, workers in ((small, NPROC), (big, min(NPROC, BIGMEM_JOBS))):
+        if not batch:
+            continue
+        with ProcessPoolExecutor(max_workers=workers) as ex:
+            futs = [ex.submit(_worker, j) for j in batch]
+            for f in as_completed(futs):
+                key, r = f.result()
+                bykey[key].result = r
+                done += 1
+                if progress and (done % 50 == 0 or done == len(jobs)):
+                    print('  [%d/%d obligations, %.0fs]' % (done, len(jobs), time.time() - t0), file=sys.stderr, flush=True)
     return obs
